@@ -195,6 +195,7 @@ class Oracle:
     def number(s):
         """value of a plain decimal literal, else 0 (float(s) except ValueError: 0)"""
         import re
+        s = s.strip(' \t\n\r\x0b\x0c')
         if re.fullmatch(r'[+-]?(\d+\.?\d*|\.\d+)', s):
             return Fraction(s)
         return Fraction(0)
@@ -273,7 +274,7 @@ class Gen:
         if x < 0.6:
             t.append(['RC', 'i', r.choice([1, 1, 2, 3, 0, -2])])
         elif x < 0.8:
-            t.append(['RC', 'Z', r.choice(['2.5', '0.25', '3', 'abc', '-1.5', '.5', '4.', '', '1.2.3', '+2'])])
+            t.append(['RC', 'Z', r.choice(['2.5', '0.25', '3', 'abc', '-1.5', '.5', '4.', '', '1.2.3', '+2', ' 3', '2 ', ' 1.5 ', '- 2', '\t4'])])
         if r.random() < 0.15:
             t.append(['RR', 'Z', r.choice(['NoCut', 'dup', ''])])
         x = r.random()
@@ -294,13 +295,13 @@ class Gen:
         if r.random() < 0.7:
             t.append(['NM', 'i', r.choice([0, 0, 1, 2, 3, 4])])
         if r.random() < 0.6:
-            t.append(['GN', 'Z', r.choice(['g1', 'g2', 'g1,g2', 'g2,,g3', '', 'g1,g1', ',', 'gg'])])
+            t.append(['GN', 'Z', r.choice(['g1', 'g2', 'g1,g2', 'g2,,g3', '', 'g1,g1', ',', 'gg', ' g1', 'g1 ', 'g1, g2', ' '])])
         if r.random() < 0.3:
             t.append([r.choice(['BI', 'bi']), 'i', r.randint(1, 3)])
         if r.random() < 0.04:
             t.append(['re', 'Z', 'quirk'])
         if r.random() < 0.4:
-            t.append(['fv', 'Z', r.choice(['0.5', '1.25', '-2', '3.', '7', 'x'])])
+            t.append(['fv', 'Z', r.choice(['0.5', '1.25', '-2', '3.', '7', 'x', ' 7', '0.5 '])])
         r.shuffle(t)
         return t
 
@@ -422,7 +423,8 @@ def directed_intervals(rng, lib, n):
         p, e = r['pos'], ref_end(r)
         s, t = rng.choice([(p, p + 1), (p - 5, p), (p - 5, p + 1), (p + 1, p + 9), (e, e + 1), (e - 1, e), (e + 1, e + 5),
                            (e - 3, e + 1), (p, e), (p + 1, e), (e, e + 30), (p - 3, e + 3)])
-        out.append([lib['contigs'][r['ref']][0], max(0, s), max(1, t)])
+        s = max(0, s)
+        out.append([lib['contigs'][r['ref']][0], s, max(s + 1, t)])
     return out
 
 
@@ -479,7 +481,9 @@ class Prop(fw.PropBase):
         'typed, NH <> 0, every non-empty XA entry has 4 comma separated fields; and wf_opts: at least one feature tag, a '
         'non-empty delimiter with --splitFeatures, not (joined tags + --splitFeatures + -byValue: documented '
         'NotImplementedError)',
-        '-contig and BED contigs are contigs of the BAM header (pysam raises otherwise)',
+        '-contig and BED contigs are contigs of the BAM header (pysam raises otherwise); BED regions have start < end',
+        'int()/float() of tag strings: surrounding ASCII whitespace is modelled; underscores, exponents, inf/nan and '
+        'non-ASCII whitespace are not generated',
     ]
 
     # ---------------------------------------------------------------- cases
